@@ -77,3 +77,17 @@ prop(id="C13", vfile="Properties/C13.v",
      runs=lambda tier, seed: [dict(profile="aollist", seed=seed, n=_sizes(tier, 30, 2000), extra=["-blocks", "4"]),
                               dict(profile="aol", seed=seed, n=_sizes(tier, 20, 1000), extra=["-blocks", str(_sizes(tier, 10, 30))])],
      rule=LIST_RULE + " || " + AOL_RULE, assumptions=CHAIN_ASSUME + ["query.Paginate is modelled from the SDK source (Pagination/Model.v) and checked differentially"])
+
+
+VALID_RULE = ("valid profile (boundary-exhaustive, not random): every field of the 14 messages is driven through lengths "
+              "{0,1,max-1,max,max+1,255,256} and, for names, every character at a class boundary (- . / 0 9 : @ A Z [ _ ` a z {), "
+              "space, tab, LF, VT, FF, CR, NUL, DEL, 0x80, two-byte and three-byte UTF-8, invalid UTF-8, alone and next to a valid "
+              "character, while the other fields hold valid values; addresses: valid, empty, blank, upper-case, padded, truncated, "
+              "other prefix, 1/32/255/256-byte; DIDs of 31/32/44/45 characters, non-base58 characters, wrong method; documents with "
+              "every verification-method-id suffix shape, key types, base58 keys, missing methods/authentication, contexts, "
+              "controllers, services; plus pairs of off-limit fields. Each case: real ValidateBasic (+GetSigners when accepted) vs model. "
+              "non-trivial = distinct case; thorough adds 4000 random field combinations")
+prop(id="C16", vfile="Properties/C16.v",
+     runs=lambda tier, seed: [dict(profile="valid", seed=seed, n=_sizes(tier, 1, 2)),
+                              dict(profile="aol", seed=seed, n=_sizes(tier, 15, 500), extra=["-blocks", "10"])],
+     rule=VALID_RULE, assumptions=CHAIN_ASSUME + ["Go regexp semantics for the six literal patterns are modelled by byte-wise character classes (tied to the literals by C16_regex_ties, checked differentially at every class boundary)"])
